@@ -627,6 +627,8 @@ CORPUS_URLS = [
     "https://www.facebook.com/groups/nasa/posts/55", "https://www.facebook.com/1234/posts/55", "https://www.facebook.com/nasa/posts/55",
     # d948b00: urls that cannot be split
     "[", "http://[facebook.com/", "http://facebook.com]/x", "//[::1/facebook.", "facebook.com/[",
+    # relative references that urljoin cannot split (allow_relative_urls=True: the ValueError is caught)
+    "//[", "//[x/nasa/posts/1", "//]", "//[::1", "x://[", "/nasa/../[", "//a]b/",
     # hostname tests (cfc3b3c, 2185ed5)
     "https://notfacebook.com/nasa", "https://facebook.com.evil.org/nasa", "https://evil.org/facebook.com/nasa",
     "https://evil.org/?u=facebook.com", "https://www.facebook.co.uk/nasa", "https://fb.me/nasa", "http://xfb.me/nasa",
